@@ -443,10 +443,14 @@ def load_kern(
         measures = part.measures
         for i in range(len(measures) - 1):
             measures[i].end = measures[i + 1].start
-        measures[-1].end = part.last_point
-        # find and add pickup measure
-        if part.measures[0].start.t != 0:
-            part.add(spt.Measure(number=0), start=0, end=part.measures[0].start.t)
+        # a document without any barline has no measures
+        if len(measures) > 0:
+            measures[-1].end = part.last_point
+            # find and add pickup measure
+            if part.measures[0].start.t != 0:
+                part.add(
+                    spt.Measure(number=0), start=0, end=part.measures[0].start.t
+                )
 
         if parser.id not in [p.id for p in partlist]:
             partlist.append(part)
